@@ -103,7 +103,7 @@ def non_linear_correlations(df, model, draws=5, minmax=False):
             mini = cor.copy()
             maxi = cor.copy()
     else:
-        cor = numpy.corrcoef(df, rowvar=False)
+        cor = numpy.atleast_2d(numpy.corrcoef(df, rowvar=False))
         cor[:, :] = 0.0
         iloc = False
         if minmax:
